@@ -370,6 +370,38 @@ def Line.loads : Line → Bool
     rest of the file was not read). -/
 def load (file : List Line) : List Line := file.filter Line.loads
 
+/-! ### the shape of a hand-edited file
+
+`LoadPeerstore` reads with `ReadString('\n')` until EOF, strips one trailing "\n" and then one
+trailing "\r" from what it got, and looks at the remaining text — also at the text that comes
+together with `io.EOF` (a last line without newline). So:
+* whether the file ends in a newline does not matter (`finalNewline` is not used by `loadShaped`);
+* a line may end in "\n" or "\r\n" (`cr` = 0 or 1): the text is the same;
+* only ONE "\r" is stripped: "\r\r\n" (`cr` = 2) leaves a "\r" glued to the text, which then does
+  not parse (an address) or does not start with '/' (a blank line) — the line is skipped. A "\r" in
+  the middle of a line is just part of an unparsable text (a `slashBad` entry of the harness table);
+* a UTF-8 byte order mark glues to the first line, which then does not start with '/'. -/
+
+/-- a line of the file together with the number of "\r" before its line end -/
+structure FLine where
+  l  : Line
+  cr : Nat
+  deriving DecidableEq, Repr
+
+structure FileShape where
+  finalNewline : Bool      -- the last line is terminated by "\n"
+  bom          : Bool      -- the file starts with EF BB BF
+  deriving DecidableEq, Repr
+
+def FLine.parses (fl : FLine) : Bool := fl.l.loads && decide (fl.cr ≤ 1)
+
+/-- `LoadPeerstore` on a file of the given shape -/
+def loadShaped (sh : FileShape) (file : List FLine) : List Line :=
+  ((if sh.bom then file.drop 1 else file).filter FLine.parses).map (·.l)
+
+/-- "\r\n" read as "\n": the one "\r" the code strips -/
+def FLine.stripCr (fl : FLine) : FLine := { fl with cr := if fl.cr ≤ 1 then 0 else fl.cr }
+
 /-- `ImportPeers` walks the loaded addresses with their index `i` and sets priority `i` on the
     peer of every importable entry: what remains is the index of the peer's last entry -/
 def lastIdx (p : Nat) : List Line → Nat → Option Nat → Option Nat
